@@ -3,11 +3,13 @@
   specification (`specVar`, `routedSvcOk`).
 -/
 import Upnp.Lemmas.C10Apply
+set_option linter.unusedSectionVars false
 namespace Upnp.C10
 open Upnp PyDict Upnp.C09
+variable [FloatOracle]
 
 /-- declarations of one service: distinct, brace-free names -/
-def declsWF (ds : List Decl) : Prop := (ds.map (·.name)).Nodup ∧ ∀ d ∈ ds, braceFree d.name = true
+def declsWF (ds : List Var) : Prop := (ds.map (·.decl.name)).Nodup ∧ ∀ d ∈ ds, braceFree d.decl.name = true
 
 /-- under `bodyWF` the name lookup is injective on the tags present in the `changes` dict -/
 theorem resolve_inj (names : List Str) (hn : ∀ n ∈ names, braceFree n = true) (b : Body) (hb : bodyWF b = true)
@@ -146,14 +148,14 @@ theorem carried_assigns (names : List Str) (hn : ∀ n ∈ names, braceFree n = 
       obtain ⟨c, hc, rfl⟩ := changesOf_key b t ht
       exact hno c hc ((hres c hc).mp hft)
 
-theorem names_braceFree (s : Svc) (hs : declsWF (s.vars.map (·.decl))) : ∀ n ∈ s.names, braceFree n = true := by
+theorem names_braceFree (s : Svc) (hs : declsWF s.vars) : ∀ n ∈ s.names, braceFree n = true := by
   intro n hn
   simp only [Svc.names, List.mem_map] at hn
   obtain ⟨v, hv, rfl⟩ := hn
-  exact hs.2 v.decl (List.mem_map_of_mem hv)
+  exact hs.2 v hv
 
 /-- `notify_changed_state_variables` on a well-formed property set, by variable -/
-theorem notifyChanged_spec (s : Svc) (hs : declsWF (s.vars.map (·.decl))) (b : Body) (hb : bodyWF b = true)
+theorem notifyChanged_spec (s : Svc) (hs : declsWF s.vars) (b : Body) (hb : bodyWF b = true)
     (tick : Nat) :
     notifyChanged s (changesOf b) tick =
       { vars := s.vars.map (varAfter (assigns s.names b) tick),
@@ -162,7 +164,7 @@ theorem notifyChanged_spec (s : Svc) (hs : declsWF (s.vars.map (·.decl))) (b : 
     intro n hn
     simp only [Svc.names, List.mem_map] at hn
     obtain ⟨v, hv, rfl⟩ := hn
-    exact hs.2 v.decl (List.mem_map_of_mem hv)
+    exact hs.2 v hv
   have hnd : (s.vars.map (·.decl.name)).Nodup := by
     have := hs.1; simpa [List.map_map, Function.comp_def] using this
   unfold notifyChanged
@@ -259,20 +261,21 @@ theorem varAfter_spec (names : List Str) (hn : ∀ n ∈ names, braceFree n = tr
     let flag := match get? (assigns names b) v.decl.name with
       | some text => (setUpnpValue v text tick).2
       | none => false
-    v'.decl = v.decl ∧
-    (v'.st.stored.read, v'.st.updated, flag) = specVar v.decl b tick v.st.stored.read v.st.updated := by
+    (v'.decl = v.decl ∧ v'.row = v.row ∧ v'.sc = v.sc) ∧
+    (Stored.read v'.st.stored, v'.st.updated, flag) = specVar v b tick (Stored.read v.st.stored) v.st.updated := by
   simp only [varAfter, specVar, carried_assigns names hn b hb v.decl.name hx]
   cases get? (assigns names b) v.decl.name with
-  | none => exact ⟨rfl, rfl⟩
+  | none => exact ⟨⟨rfl, rfl, rfl⟩, rfl⟩
   | some text =>
     simp only [setUpnpValue]
-    cases convert (inKindOf v.decl.dtype) text with
-    | none => exact ⟨rfl, rfl⟩
-    | some x =>
+    rcases convert_total v text with ⟨x, hc⟩ | hc
+    · rw [hc]
       simp only
-      by_cases hval : validate v.decl x = true
-      · simp [hval, Stored.read]
+      by_cases hval : validate v x = true
+      · simp [hval, Stored.read, Upnp.C08.Cell.read]
       · simp [hval]
+    · rw [hc]
+      simp [Stored.read, Upnp.C08.Cell.read]
 
 theorem zip3_map {α β γ δ : Type} (l : List δ) (f : δ → α) (g : δ → β) (h : δ → γ) :
     zip3 (l.map f) (l.map g) (l.map h) = l.map fun x => (f x, g x, h x) := by
@@ -280,21 +283,26 @@ theorem zip3_map {α β γ δ : Type} (l : List δ) (f : δ → α) (g : δ → 
   | nil => rfl
   | cons a r ih => simp [zip3, ih]
 
+theorem blank_eq {v w : Var} (h : v.decl = w.decl ∧ v.row = w.row ∧ v.sc = w.sc) : Var.blank v = Var.blank w := by
+  cases v; cases w; simp only [Var.blank] at *; simp_all
+
+theorem specVar_blank (v : Var) (b : Body) (tick : Nat) (v0 : Val) (u0 : Option Nat) :
+    specVar (Var.blank v) b tick v0 u0 = specVar v b tick v0 u0 := rfl
+
 /-- **the routed service satisfies the judge** -/
-theorem routedSvcOk_model (s : Svc) (hs : declsWF (s.vars.map (·.decl))) (b : Body) (hb : bodyWF b = true)
+theorem routedSvcOk_model (s : Svc) (hs : declsWF s.vars) (b : Body) (hb : bodyWF b = true)
     (tick : Nat) :
     let s' := notifyChanged s (changesOf b) tick
-    routedSvcOk (s.vars.map (·.decl)) b tick (svcObs s) (svcObs s') (s'.events.drop s.events.length) = true
-    ∧ s'.vars.map (·.decl) = s.vars.map (·.decl) := by
-  have hnd : (s.vars.map (·.decl.name)).Nodup := by
-    have := hs.1; simpa [List.map_map, Function.comp_def] using this
+    routedSvcOk (declsOf s) b tick (svcObs s) (svcObs s') (s'.events.drop s.events.length) = true
+    ∧ declsOf s' = declsOf s := by
+  have hnd : (s.vars.map (·.decl.name)).Nodup := hs.1
   simp only [notifyChanged_spec s hs b hb tick, List.drop_left]
-  have hdecl : ∀ v ∈ s.vars, (varAfter (assigns s.names b) tick v).decl = v.decl := by
+  have hdecl : ∀ v ∈ s.vars, Var.blank (varAfter (assigns s.names b) tick v) = Var.blank v := by
     intro v hv
     have hx : s.names.contains v.decl.name = true := by
       simp only [Svc.names, List.contains_eq_mem, List.mem_map, decide_eq_true_eq]
       exact ⟨v, hv, rfl⟩
-    exact (varAfter_spec s.names (names_braceFree s hs) b hb tick v hx).1
+    exact blank_eq (varAfter_spec s.names (names_braceFree s hs) b hb tick v hx).1
   refine ⟨?_, ?_⟩
   · simp only [routedSvcOk, Bool.and_eq_true]
     refine ⟨⟨⟨⟨?_, ?_⟩, ?_⟩, ?_⟩, ?_⟩
@@ -303,10 +311,10 @@ theorem routedSvcOk_model (s : Svc) (hs : declsWF (s.vars.map (·.decl))) (b : B
     · rw [List.all_eq_true]
       intro x hx
       have := listedOf_declared _ _ _ x hx
-      simpa [List.map_map] using this
-    · simp [svcObs]
-    · simp [svcObs]
-    · simp only [svcObs, List.map_map]
+      simpa [declsOf, Var.blank, List.map_map, Function.comp_def] using this
+    · simp [svcObs, declsOf]
+    · simp [svcObs, declsOf]
+    · simp only [svcObs, declsOf, List.map_map]
       rw [zip3_map, List.all_eq_true]
       intro t ht
       simp only [List.mem_map] at ht
@@ -315,11 +323,13 @@ theorem routedSvcOk_model (s : Svc) (hs : declsWF (s.vars.map (·.decl))) (b : B
         simp only [Svc.names, List.contains_eq_mem, List.mem_map, decide_eq_true_eq]
         exact ⟨v, hv, rfl⟩
       obtain ⟨h1, h2⟩ := varAfter_spec s.names (names_braceFree s hs) b hb tick v hx
-      simp only [varOk, Bool.and_eq_true, beq_iff_eq]
-      refine ⟨⟨trivial, by simp only [Function.comp]; rw [h1]⟩, ?_⟩
-      rw [listedOf_contains _ (assigns_nodup s.names (names_braceFree s hs) b hb) tick s.vars hnd v hv]
+      simp only [varOk, Bool.and_eq_true, beq_iff_eq, specVar_blank]
+      refine ⟨⟨rfl, by simp only [Function.comp]; rw [h1.1]; rfl⟩, ?_⟩
+      have hl := listedOf_contains _ (assigns_nodup s.names (names_braceFree s hs) b hb) tick s.vars hnd v hv
+      show (_, _, (listedOf (assigns s.names b) tick s.vars).contains v.decl.name) = _
+      rw [hl]
       exact h2
-  · rw [List.map_map]
+  · simp only [declsOf, List.map_map]
     apply List.map_congr_left
     intro v hv
     exact hdecl v hv
